@@ -87,12 +87,20 @@ def _inline_into(j, g: Func, bi: int, as_closure: bool):
     j["blocks"][bi]["term"] = {"k": "goto", "target": bo, "line": line, "inlined_call": g.key}
 
 
-def _reference():
+def _reference(with_sig=False):
     import os
     import harness
     p = os.path.join(harness.VERIF, "tables", "functions.txt")
+    keys, sigs = set(), {}
     with open(p) as fh:
-        return {l.strip() for l in fh if l.strip() and not l.startswith("#")}
+        for l in fh:
+            if not l.strip() or l.startswith("#"):
+                continue
+            parts = l.rstrip("\n").split("\t")
+            keys.add(parts[0])
+            if len(parts) >= 3:
+                sigs[parts[0]] = (int(parts[1]), parts[2])
+    return (keys, sigs) if with_sig else keys
 
 
 def _rekey_closures(o, mapping):
@@ -106,6 +114,66 @@ def _rekey_closures(o, mapping):
     elif isinstance(o, list):
         for v in o:
             _rekey_closures(v, mapping)
+
+
+def renamed(F: Facts) -> Facts:
+    """Undo function renames: a reference function (tables/functions.txt) that no longer exists and a function that is not in the
+    reference list are paired when they live in the same module / impl, have the same parameter and return types and the pairing
+    is unique; the new function (and its closures) is then given the old key, and every reference to it is rewritten."""
+    ref, sigs = _reference(with_sig=True)
+    have = {k for k, g in F.funcs.items() if not g.is_closure() and not g.generated}
+    missing = sorted(ref - set(F.funcs))
+    fresh = sorted(have - ref)
+    if not missing or not fresh:
+        return F
+
+    def sig(g):
+        return (g.argc, "|".join((g.locals[i].get("ty") or "?") for i in range(0, g.argc + 1) if i < len(g.locals)))
+
+    def parent(k):
+        return k.rsplit("::", 1)[0]
+    mapping = {}
+    taken = set()
+    for old in missing:
+        want = sigs.get(old)
+        cands = [k for k in fresh if k not in taken and (want is None or sig(F.funcs[k]) == want)]
+        same_parent = [k for k in cands if parent(k) == parent(old)]
+        same_name = [k for k in cands if k.rsplit("::", 1)[-1] == old.rsplit("::", 1)[-1]]
+        pick = None
+        if want is not None and len(same_parent) == 1:
+            pick = same_parent[0]                       # renamed in place
+        elif len(same_name) == 1:
+            pick = same_name[0]                         # moved to another module / impl
+        elif want is not None and len(cands) == 1:
+            pick = cands[0]
+        if pick is not None:
+            mapping[pick] = old
+            taken.add(pick)
+    if not mapping:
+        return F
+    full = dict(mapping)
+    for k, g in F.funcs.items():
+        if g.is_closure() and g.region in mapping:
+            full[k] = mapping[g.region] + k[len(g.region):]
+    new = copy.copy(F)
+    new.funcs = {}
+    new._cg = None
+    new._rev = None
+    new._closures_by_region = None
+    for k, f in F.funcs.items():
+        j = _raw(f)
+        _rekey_closures(j["blocks"], full)
+        if k in full:
+            j["key"] = full[k]
+            for fld in ("root", "parent"):
+                if j.get(fld) in full:
+                    j[fld] = full[j[fld]]
+                elif j.get(fld) in mapping:
+                    j[fld] = mapping[j[fld]]
+        nf = Func(j, f.crate)
+        new.funcs[nf.key] = nf
+    new.renamed = mapping
+    return new
 
 
 def normalise(F: Facts, closures: bool = False) -> Facts:
